@@ -12,7 +12,6 @@ CONSTANTS
   AtomCodes <- AtomCodesDef
   FmtPieces <- FmtPiecesDef
 INVARIANTS
-  TraceRefines
   TFresh
   TAcyclic
 PROPERTIES
@@ -90,10 +89,24 @@ def validate(trace_path, wd, timeout, module="TraceSolver", cfg=None):
                JAVA_TOOL_OPTIONS="-Xss512m -Dtlc2.tool.queue.IStateQueue=StateDeque")
     out_path = os.path.join(wd, "tlc-trace.out")
     t0 = time.time()
+    # TLC's output is filtered while it is written: on an invariant violation TLC prints the whole behaviour
+    # (one state per trace event, each with every solution node), which can be many gigabytes
     with open(out_path, "w") as out:
-        p = subprocess.run(["timeout", str(timeout), "tlc", "-workers", "1", "-metadir", os.path.join(wd, "md"), "-cleanup",
-                            "-noGenerateSpecTE", "-config", module + ".cfg", module + ".tla"],
-                           cwd=wd, env=env, stdout=out, stderr=subprocess.STDOUT)
+        p = subprocess.Popen(["timeout", str(timeout), "tlc", "-workers", "1", "-metadir", os.path.join(wd, "md"), "-cleanup",
+                              "-noGenerateSpecTE", "-config", module + ".cfg", module + ".tla"],
+                             cwd=wd, env=env, stdout=subprocess.PIPE, stderr=subprocess.STDOUT, text=True, errors="replace")
+        kept = 0
+        dumping = False
+        for line in p.stdout:
+            if line.startswith("Error: The behavior up to this point") or line.startswith("State 1:"):
+                dumping = True                   # the behaviour dump: not kept
+            if dumping and (line.startswith('<<"') or "states generated" in line or line.startswith("Finished in")):
+                dumping = False
+            if dumping or line.startswith("/\\ ") or line.startswith("State "):
+                continue
+            if kept < 400000:
+                out.write(line[:20000]); kept += 1
+        p.wait()
     shutil.rmtree(os.path.join(wd, "md"), ignore_errors=True)
     res = dict(accepted=None, rejected=None, rejections=[], violated=[], states=0, transitions=0, wall=time.time() - t0, rc=p.returncode, out=out_path)
     for line in open(out_path, errors="replace"):
@@ -102,6 +115,8 @@ def validate(trace_path, wd, timeout, module="TraceSolver", cfg=None):
             res["validated"] = tuple(int(x) for x in m)       # TraceSolver: runs accepted, runs rejected, trace lines
             if module == "TraceSolver" and int(m[1]) == 0:
                 res["accepted"] = (int(m[0]), int(m[2]))
+        elif line.startswith('<<"SPECDIFF"'):
+            res.setdefault("specdiff", []).append(line.strip())
         elif line.startswith('<<"IDS"'):
             res.setdefault("ids", []).append(line.strip())
         elif line.startswith('<<"REJECTED"'):
@@ -130,7 +145,7 @@ def parse_rejected(line):
     return rej
 
 
-MACHINE_INVARIANTS = "TraceRefines TFresh TAcyclic TCutCommits TNoRetry TCutIsLocal".split()
+MACHINE_INVARIANTS = "TFresh TAcyclic TCutCommits TNoRetry TCutIsLocal".split()
 
 
 UNIFY_KINDS = {"success": {"C06"}, "values": {"C06"}, "cycle": {"C08"}, "reverse-cycle": {"C08"}, "anon-bound": {"C09"},
@@ -210,6 +225,9 @@ def run(jobname, job, prop, tier, seed, wd, acc):
                                % (res["violated"], res["out"]))
     if "validated" not in res:
         raise vcheck.ToolError("trace validation ended without a verdict (exit %d, %s)" % (res["rc"], res["out"]))
+    if res.get("specdiff"):
+        raise vcheck.ToolError("Solver.tla and SLD.tla disagree on %d recorded program(s) (a defect of the specification, not of the implementation): %s  [see %s]"
+                               % (len(res["specdiff"]), res["specdiff"][0][:500], res["out"]))
     rejected_runs = set()
     for line in res["rejections"]:
         rej = parse_rejected(line)
